@@ -235,8 +235,12 @@ def classify(inp, out):
 
 
 def nontrivial(inp, out):
-    o = out if isinstance(out, str) else str(out)
-    return " 1)" in o or "(2)" in o
+    from . import sx
+    try:
+        t = tags(sx.loads(out) if isinstance(out, str) else out)
+    except Exception:
+        return False
+    return bool(t & {"arrive", "reject", "penalty", "flag"})
 
 
 def shrink(inp):
@@ -256,4 +260,174 @@ COMPONENT_MANAGERS = Component(2501, "corridor_managers", impl, gen, chk=2502, n
                                classify=classify, shrink=shrink, repro=repro, timeout=30)
 COMPONENT_MANAGERS.split = split
 
-COMPONENTS = [COMPONENT_MANAGERS]
+
+
+# ------------------------------------------------------------------ (b) wrapper stacks under managers
+WK = {0: "super", 1: "comm", 2: "ravel", 3: "flatten", 4: "flatten-ravel"}
+
+
+def build_stack(cend, n, wk, mapping):
+    """the real wrapper over the real MultiCorridor, and the codecs between its dictionaries and the
+    wire format of coq/Ctl/Corridor.v (2503)"""
+    from abmarl.examples.sim.multi_corridor import MultiCorridor
+    from abmarl.sim.wrappers import (SuperAgentWrapper, CommunicationHandshakeWrapper,
+                                     RavelDiscreteWrapper, FlattenWrapper)
+    from . import c06_sims as C
+    inner = MultiCorridor(end=cend, num_agents=n)
+    if wk == 0:
+        names = {f"super{j}": [f"agent{c}" for c in cv] for j, cv in enumerate(mapping)}
+        w = SuperAgentWrapper(inner, super_agent_mapping=names)
+        covered = {c for cv in mapping for c in cv}
+        unc = [a for a in range(n) if a not in covered]
+        keys = list(w.agents.keys())
+        # position in the wrapper's agent dictionary -> index of the packaged simulation
+        ord_ = [int(k[5:]) if k.startswith("super") else len(mapping) + unc.index(aidx(k)) for k in keys]
+        key_of = keys.index
+
+        def enc_obs(k, v):
+            if k in names:
+                assert set(v) == set(names[k]) | {"mask"} and set(v["mask"]) == set(names[k])
+                for c in names[k]:
+                    assert np.asarray(v["mask"][c]).shape == (1,)
+                return [[1, [[aidx(c)] + enc_cobs(v[c]) for c in names[k]],
+                         [[aidx(c), 1 if v["mask"][c][0] else 0] for c in names[k]]]]
+            return [[2] + enc_cobs(v)]
+
+        def enc_info(k, v):
+            return v == ({c: {} for c in names[k]} if k in names else {})
+
+        def make_action(k, rng):
+            if k in names:
+                return {c: sample_action(rng) for c in names[k]}
+            return sample_action(rng)
+
+        def wire_action(k, a):
+            if k in names:
+                return [[0, [[aidx(c), int(x)] for c, x in a.items()]]]
+            return [[1, int(a)]]
+        return inner, w, key_of, enc_obs, enc_info, make_action, wire_action, [mapping, ord_]
+    if wk == 1:
+        w = CommunicationHandshakeWrapper(inner)
+
+        def enc_obs(k, v):
+            assert set(v) == {"obs", "message_buffer"}
+            return [[1, enc_cobs(v["obs"]), [[aidx(o), 1 if m else 0] for o, m in v["message_buffer"].items()]]]
+
+        def make_action(k, rng):
+            others = [o for o in w.agents if o != k]
+            act = {"action": sample_action(rng),
+                   "send": {o: rng.choice([0, 0, 1]) for o in others},
+                   "receive": {o: rng.choice([0, 1, 1]) for o in others}}
+            assert w.agents[k].action_space.contains(act)
+            return act
+
+        def wire_action(k, a):
+            return [int(a["action"]), [[aidx(o), int(x)] for o, x in a["send"].items()],
+                    [[aidx(o), int(x)] for o, x in a["receive"].items()]]
+        return inner, w, aidx, enc_obs, (lambda k, v: v == {}), make_action, wire_action, [[], []]
+    w = {2: lambda: RavelDiscreteWrapper(inner), 3: lambda: FlattenWrapper(inner),
+         4: lambda: FlattenWrapper(RavelDiscreteWrapper(inner))}[wk]()
+
+    def enc_obs(k, v):
+        sp = w.agents[k].observation_space
+        assert sp.contains(v), (sp, v)
+        return [C.upoint_to_sx(sp, v)]
+
+    def make_action(k, rng):
+        sp = w.agents[k].action_space
+        a = sample_action(rng)
+        act = a if wk == 2 else np.array([a], dtype=sp.dtype)
+        assert sp.contains(act), (sp, act)
+        return act
+
+    def wire_action(k, a):
+        return [C.upoint_to_sx(w.agents[k].action_space, a)]
+    return inner, w, aidx, enc_obs, (lambda k, v: v == {}), make_action, wire_action, [[], []]
+
+
+def drive_wrapped(inp):
+    from abmarl.managers import AllStepManager, TurnBasedManager
+    cend, n, kind, wk, mapping, randomize, pols, seed = inp
+    rng = random.Random(seed)
+    random.seed(seed)
+    inner, w, key_of, enc_obs, enc_info, make_action, wire_action, extra = build_stack(cend, n, wk, mapping)
+    mgr = AllStepManager(w, randomize_action_input=bool(randomize)) if kind == 0 else TurnBasedManager(w)
+    with ChoiceSpy(rng) as spy, ShuffleSpy() as sh:
+        calls, recs = play(inner, mgr, key_of, enc_obs, enc_info, lambda k: make_action(k, rng),
+                           wire_action, pols, rng, spy, sh.log)
+    return [cend, n, spy.draws, kind, wk, extra, calls], recs
+
+
+def impl_wrapped(inp):
+    minp, beh = drive_wrapped(inp)
+    return [minp, beh]
+
+
+def split_wrapped(inp, out):
+    if out[0] == -1:
+        return [inp[0], inp[1], [], inp[2], inp[3], [[], []], []], out
+    return out[0], out[1]
+
+
+def gen_wrapped(tier, rng):
+    quick = tier != "thorough"
+    for _ in range(700 if quick else 20000):
+        wk = rng.choice([0, 0, 1, 1, 2, 3, 4])
+        cend = rng.choice([3, 4, 4, 5, 5, 6, 7, 8])
+        n = rng.randint(1 if wk >= 2 else 2, max(2, min(5, cend - 1)))
+        n = min(n, cend - 1)
+        if n < 2 and wk < 2:
+            cend, n = 4, 2
+        mapping = []
+        if wk == 0:
+            ags = list(range(n))
+            rng.shuffle(ags)
+            ncov = rng.randint(1, n)
+            cov = ags[:ncov]
+            if ncov >= 2 and rng.random() < 0.5:
+                cut = rng.randint(1, ncov - 1)
+                mapping = [cov[:cut], cov[cut:]]
+            else:
+                mapping = [cov]
+        kind = rng.choice([0, 1])
+        L = rng.randint(4, 40)
+        style = rng.random()
+        if style < 0.4:
+            pols = [0] * L
+        elif style < 0.55:
+            pols = [rng.choice([0, 0, 0, 6]) for _ in range(L)]
+        else:
+            pols = [rng.choice(POLS) for _ in range(L)]
+        yield [cend, n, kind, wk, mapping, 1 if (kind == 0 and rng.random() < 0.4) else 0, pols,
+               rng.getrandbits(30)]
+
+
+def classify_wrapped(inp, out):
+    from . import sx
+    try:
+        t = tags(sx.loads(out) if isinstance(out, str) else out)
+    except Exception:
+        t = set()
+    return WK[inp[3]] + "/" + KINDS[inp[2]] + "/" + "+".join(sorted(t) or ["plain"])
+
+
+def shrink_wrapped(inp):
+    pols = inp[6]
+    for i in range(len(pols) - 1, 0, -1):
+        yield inp[:6] + [pols[:i]] + inp[7:]
+
+
+def repro_wrapped(inp):
+    from . import sx
+    return ("PYTHONPATH=/verif:/repo PYTHONHASHSEED=0 /venv/bin/python -c \"from harness import gen_Corridor, sx; "
+            "print(gen_Corridor.impl_wrapped(sx.loads('%s')))\"  # drives the real manager over the real wrapper "
+            "over the real MultiCorridor; input = end n manager(0 all,1 turn) wrapper(0 super,1 comm,2 ravel,"
+            "3 flatten,4 flatten(ravel)) mapping randomize policies seed" % sx.dumps(inp))
+
+
+COMPONENT_WRAPPED = Component(2503, "corridor_wrapped", impl_wrapped, gen_wrapped, chk=2504,
+                              nontrivial=nontrivial, classify=classify_wrapped, shrink=shrink_wrapped,
+                              repro=repro_wrapped, timeout=30)
+COMPONENT_WRAPPED.split = split_wrapped
+
+COMPONENTS = [COMPONENT_MANAGERS, COMPONENT_WRAPPED]
